@@ -33,9 +33,15 @@ Binders == {
   <<"let", "let", TRUE>>, <<"let-unpack", "let", TRUE>>,
   <<"setv", "assign", FALSE>>, <<"setx", "assign", FALSE>>, <<"aug", "assign", FALSE>>, <<"unpack", "assign", FALSE>>,
   <<"for", "assign", TRUE>>, <<"with", "assign", TRUE>>, <<"match", "assign", TRUE>>, <<"match-as", "assign", TRUE>>,
+  \* assignments inside a comprehension that are not iteration or :setv clauses (an assignment expression in the
+  \* element or in :if, a setv in :do) are basic assignments: as in Python they reach the enclosing scope
+  <<"compr-setx", "assign", TRUE>>, <<"compr-setx-stmt", "assign", TRUE>>, <<"compr-setx-if", "assign", TRUE>>,
+  <<"gfor-setx", "assign", TRUE>>, <<"dfor-setx", "assign", TRUE>>, <<"compr-do-setv", "assign", TRUE>>,
   <<"lfor", "compr", TRUE>>, <<"sfor", "compr", TRUE>>, <<"gfor", "compr", TRUE>>, <<"dfor", "compr", TRUE>>,
   <<"compr-setv", "compr", TRUE>>, <<"iter-read", "compr", TRUE>>, <<"compr-unpack", "compr", TRUE>>,
   <<"lfor-stmt", "compr", TRUE>>, <<"iter-read-stmt", "compr", TRUE>>,
+  \* the iteration variable stays the comprehension's own when the body assigns to it again
+  <<"setv-own-itervar", "compr", TRUE>>, <<"setx-own-itervar", "compr", TRUE>>,
   <<"except", "except", TRUE>>,
   <<"defn", "hoist", FALSE>>, <<"defclass", "hoist", FALSE>>, <<"import-as", "hoist", FALSE>>}
 Levels == {"module", "fn"}
